@@ -97,6 +97,18 @@ async fn a_bool(x: u32) -> bool {
     x % 2 == 0
 }
 
+#[inline(never)]
+fn sync_helper(a: i32) -> i32 {
+    std::hint::black_box(a) + 31
+}
+
+/// a synchronous fake with a call-count expectation that is never met (the helper is not called):
+/// the scope exit that follows verifies it and panics
+fn unmet_sync_fake(inj: &mut InjectorPP) {
+    inj.when_called(shadow::func!(fn (sync_helper)(i32) -> i32))
+        .will_execute(shadow::fake!(func_type: fn(a: i32) -> i32, returns: a, times: 1));
+}
+
 fn h64(s: &str) -> u64 {
     let mut h: u64 = 0xcbf29ce484222325;
     for b in s.bytes() {
@@ -195,7 +207,8 @@ pub fn run(a: &Args, out: &mut impl Write) {
                     let site = if (i == 1 || i == 2) && r.chance(1, 3) { 2 } else { r.below(2) };
                     ops.push(format!("F{}:{}", i, site))
                 }
-                3 | 4 | 5 | 6 => ops.push(format!("A{}:{}", i, r.below(50))),
+                3 | 4 | 5 => ops.push(format!("A{}:{}", i, r.below(50))),
+                6 => ops.push(if r.chance(1, 3) { "U".to_string() } else { format!("A{}:{}", i, r.below(50)) }),
                 _ => ops.push(if r.chance(1, 3) { "P".to_string() } else { "D".to_string() }),
             }
         }
@@ -234,6 +247,9 @@ pub fn run(a: &Args, out: &mut impl Write) {
                         .as_bytes(),
                     )
                     .unwrap();
+                } else if op == "U" {
+                    unmet_sync_fake(inj.as_mut().unwrap());
+                    w.write_all(b" U").unwrap();
                 } else if op == "P" {
                     // the lifetime ends by unwinding: a panic in the scope that owns the injector
                     let owned = inj.take();
@@ -244,7 +260,9 @@ pub fn run(a: &Args, out: &mut impl Write) {
                     inj = Some(InjectorPP::new());
                     w.write_all(b" P").unwrap();
                 } else {
-                    drop(inj.take());
+                    // a scope exit; when an expectation is unmet its verification panics (caught here)
+                    let owned = inj.take();
+                    let _ = std::panic::catch_unwind(std::panic::AssertUnwindSafe(move || drop(owned)));
                     inj = Some(InjectorPP::new());
                     w.write_all(b" D").unwrap();
                 }
